@@ -2,7 +2,7 @@
    and the property itself as a monitor on the observations ("a backend / handler saw the request => the credentials
    demanded by that backend's route were presented").  Reason codes: 0 agree; 5x property monitor; 9x outside the
    modelled fragment; others: model and implementation differ. *)
-From FRP Require Export Corr.Common Model.HttpAuth Model.HttpAuthGroup Model.HttpAuthSites gen.GenRoutes gen.GenRouteSites.
+From FRP Require Export Corr.Common Model.HttpAuth Model.HttpAuthGroup Model.HttpAuthSites Model.HttpAuthMuxRace gen.GenRoutes gen.GenRouteSites.
 Open Scope Z_scope.
 
 Definition mk_hv (scheme : bytes) (space : bool) (dec : option bytes) : ha_hdr :=
@@ -34,6 +34,9 @@ Inductive case :=
 (* group.HTTPGroupController over the routers of a real HTTPReverseProxy: the joins (Register) in order with their
    observed results, then one GET: status and the member whose CreateConnFn was called (-1 none) *)
 | CHGrp (ms : list ha_gmember) (results : list Z) (rq : ha_req) (status : Z) (member : Z)
+(* the real muxer with a scripted interleaving: the actions the driver performed (handle up to the blocked hand-over,
+   then listener close / register / accept), then what the client saw and which listener's owner received the connection *)
+| CMuxRace (tbl : list ha_route) (rq : ha_req) (sched : list ha_mact) (cls : Z) (ok200 : bool) (backend : Z)
 (* HTTPAuthMiddleware around a marker handler *)
 | CMw (c : ha_cfg) (rq : ha_req) (status : Z) (reached : bool)
 (* http_proxy plugin: status, target reached.  how = 0: the request is the first of its connection, written in one piece;
@@ -93,6 +96,13 @@ Definition C07_holds (c : case) : bool :=
       if member <? 0 then true
       else match find (fun m => gm_id m =? member) ms with
            | Some m => creds_ok (ha_hmember_creds m) (ha_presented rq)
+           | None => false
+           end
+  | CMuxRace tbl rq sched _ _ backend =>
+      if backend <? 0 then true
+      else match find (fun r => rt_id r =? backend)
+                      (tbl ++ flat_map (fun a => match a with MARegister r => [r] | _ => [] end) sched) with
+           | Some l => creds_ok (ha_mux_creds l) (ha_mux_presented rq)
            | None => false
            end
   | CGrp ops _ rq _ _ member =>
@@ -178,6 +188,15 @@ Definition check_case (c : case) : Z :=
            | OForward _ =>
                if negb (status =? 200) then 125
                else match ha_hgrp_deliver ha_canon_or_self st rq member with Some _ => 0 | None => 126 end
+           end
+  | CMuxRace tbl rq sched cls ok200 backend =>
+      if negb (in_fragment rq) then 90
+      else match ms_conn (ha_mrace_run ha_canon_or_self false {| ms_tbl := tbl; ms_conn := MCNew rq |} sched) with
+           | MCDelivered l => if (backend =? rt_id l) && (cls =? 200) && ok200 then 0 else 131
+           | MCClosed => if (backend =? -1) && (cls =? -200) && ok200 then 0 else 132      (* 200 of the success hook, then closed *)
+           | MCRefused (MAuthFailed _) => if (backend =? -1) && (cls =? 407) then 0 else 133
+           | MCRefused MNotFound => if (backend =? -1) && (cls =? 404) then 0 else 134
+           | _ => 135                                                                       (* the scripted schedules always end *)
            end
   | CGrp ops results rq cls ok200 member =>
       if negb (in_fragment rq) then 90
@@ -322,5 +341,18 @@ Definition is_hgrp_protected_delivery (c : case) : bool :=
       | Some m => match ha_hmember_creds m with Some _ => true | None => false end
       | None => false
       end
+  | _ => false
+  end.
+
+Definition is_muxrace_closed (c : case) : bool :=
+  match c with
+  | CMuxRace tbl rq sched _ _ _ =>
+      match ms_conn (ha_mrace_run ha_canon_or_self false {| ms_tbl := tbl; ms_conn := MCNew rq |} sched) with MCClosed => true | _ => false end
+  | _ => false
+  end.
+Definition is_muxrace_delivered (c : case) : bool :=
+  match c with
+  | CMuxRace tbl rq sched _ _ _ =>
+      match ms_conn (ha_mrace_run ha_canon_or_self false {| ms_tbl := tbl; ms_conn := MCNew rq |} sched) with MCDelivered _ => true | _ => false end
   | _ => false
   end.
